@@ -223,11 +223,16 @@ pub fn run(ctx: &Ctx) -> Report {
     let mut rep = Report::new();
     crate::engine::install_panic_hook();
     let k = ctx.tier.pick(3, 4);
-    let strs = strings(k);
+    let strs3 = strings(3);
+    let strs4 = if k == 4 { strings(4) } else { vec![] };
     let kf_listed = ctx.known.listed("KF-C12-a", "C12");
     let mut kf_total = 0u64;
     let mut kf_witness: Option<String> = None;
+    // thorough: all strings of <= 4 tokens on three configurations, <= 3 tokens on the rest
+    let deep_cfgs = [Cfg::new(2, 2, None), Cfg::new(2, 3, Some(0)), Cfg::new(1, 2, Some(2))];
     for cfg in configs(ctx.tier) {
+        let strs: &Vec<Vec<usize>> = if k == 4 && deep_cfgs.contains(&cfg) { &strs4 } else { &strs3 };
+        let k = if k == 4 && deep_cfgs.contains(&cfg) { 4 } else { 3 };
         let t0 = Instant::now();
         let stats: Vec<(usize, Result<Stat, String>)> = strs
             .par_iter()
@@ -283,7 +288,7 @@ pub fn run(ctx: &Ctx) -> Report {
         emit_known(ctx, &mut rep, "KF-C12-a", kf_total, &kf_witness.unwrap_or_default());
     }
     rep.samples.push(json!({"tokens": TOKENS.iter().map(|t| esc(t)).collect::<Vec<_>>() }));
-    rep.samples.push(json!(esc(&strs[strs.len() / 2].iter().map(|&t| TOKENS[t]).collect::<String>())));
+    rep.samples.push(json!(esc(&strs3[strs3.len() / 2].iter().map(|&t| TOKENS[t]).collect::<String>())));
     rep.rule = "all token strings of <=k tokens over a 33-token alphabet of complete texts/sequences; for each string ALL 2^(n-1) ways of cutting it into feed_str calls are covered by the cut-DAG (node = position x implementation fingerprint after a call boundary; soundness: the future of a call boundary depends only on the state), plus feed() per char; every final node is compared (visible screen, cursor, dump(), and lines() when unlimited) with the single-call result; non-trivial = distinct final nodes compared".into();
     rep.assumptions = vec!["cut-pattern count is the number of paths through the DAG (reported as a float)".into()];
     rep
